@@ -111,16 +111,41 @@ rec_total!(c02_install_tag_n8_e33, 8, 10, true, "alloc", |c, d| InstallTag::read
 // UNVERIFIED(not run to completion within the time budget): });
 // @end
 
+
+// whole-file parser on a header-only input: no panic, largest single request within the C02 bound
+macro_rules! parse_alloc {
+    ($name:ident, $n:expr, $unw:expr, $msg:expr, |$m:ident| $fix:expr, |$d:ident| $call:expr) => {
+        #[kani::proof]
+        #[kani::unwind($unw)]
+        #[kani::stub(std::fmt::format, fmt_format_empty)]
+        #[kani::stub(std::alloc::alloc, spy::alloc)]
+        #[kani::stub(std::alloc::alloc_zeroed, spy::alloc_zeroed)]
+        #[kani::stub(std::alloc::realloc, spy::realloc)]
+        fn $name() {
+            const N: usize = $n;
+            let mut $m: [u8; N] = kani::any();
+            $fix;
+            let $d = $m;
+            spy::reset();
+            let r = $call;
+            assert!(spy::max_req() <= spy::limit(N), $msg);
+            kani::cover!(r.is_ok(), "accepted (all counts zero)");
+            kani::cover!(r.is_err(), "rejected");
+            std::mem::forget(r);
+        }
+    };
+}
+
 // ---- whole-file parsers, count fields symbolic (allocation focus) -------------------------------------------
 // @family prop=C02 tier=quick timeout=900 role=manifest-parse-alloc
-// @bounds whole-file parser on a minimal input of concrete length N (name: n<N>): every byte symbolic, in particular the 32-bit entry count and 16-bit tag count
+// @bounds whole-file parser on a header-only input of concrete length N (name: n<N>): every byte symbolic except that one of the two count fields is zero per harness (name: entries = 32-bit entry count symbolic, tag count 0; tags = 16-bit tag count symbolic, entry count 0) - with both symbolic the run does not finish
 // @encodes cascette_formats::install::manifest::InstallManifest::parse, cascette_formats::download::manifest::DownloadManifest::parse, cascette_formats::size::manifest::SizeManifest::parse
 // @assumes std::fmt::format stubbed; allocator spy records the largest single request
-// @catches KF: Vec::with_capacity(header.entry_count) with entry_count an unchecked u32 from the input (10..19-byte input requesting up to hundreds of GB); any later regression that sizes a buffer from a count field before checking the remaining input
-// UNVERIFIED(not run to completion within the time budget): rec_total!(c02_install_parse_alloc_n10, 10, 4, true, "KF:install_manifest_parse allocation request out of proportion to input", |c, d| InstallManifest::parse(&d));
-// UNVERIFIED(not run to completion within the time budget): rec_total!(c02_install_parse_alloc_n16, 16, 4, true, "KF:install_manifest_parse allocation request out of proportion to input", |c, d| InstallManifest::parse(&d));
-// UNVERIFIED(not run to completion within the time budget): rec_total!(c02_download_parse_alloc_n11, 11, 4, true, "KF:download_manifest_parse allocation request out of proportion to input", |c, d| DownloadManifest::parse(&d));
-// UNVERIFIED(not run to completion within the time budget): rec_total!(c02_download_parse_alloc_n16, 16, 4, true, "KF:download_manifest_parse allocation request out of proportion to input", |c, d| DownloadManifest::parse(&d));
-// UNVERIFIED(not run to completion within the time budget): rec_total!(c02_size_parse_alloc_n15, 15, 4, true, "KF:size_manifest_parse allocation request out of proportion to input", |c, d| SizeManifest::parse(&d));
-// UNVERIFIED(not run to completion within the time budget): rec_total!(c02_size_parse_alloc_n19, 19, 4, true, "KF:size_manifest_parse allocation request out of proportion to input", |c, d| SizeManifest::parse(&d));
+// @catches regression of the reservation bounds (patches install_manifest / download_manifest / size_manifest): Vec::with_capacity(header.entry_count / tag_count) with the count an unchecked field of the input (10..19-byte input requesting up to hundreds of GB); any later regression that sizes a buffer from a count field before checking the remaining input
+parse_alloc!(c02_install_parse_alloc_entries_n10, 10, 5, "install manifest parse: entry reservation out of proportion to input", |d| { d[4] = 0; d[5] = 0; }, |d| InstallManifest::parse(&d));
+parse_alloc!(c02_install_parse_alloc_tags_n10, 10, 5, "install manifest parse: tag reservation out of proportion to input", |d| { d[6] = 0; d[7] = 0; d[8] = 0; d[9] = 0; }, |d| InstallManifest::parse(&d));
+parse_alloc!(c02_download_parse_alloc_entries_n11, 11, 5, "download manifest parse: entry reservation out of proportion to input", |d| { d[9] = 0; d[10] = 0; }, |d| DownloadManifest::parse(&d));
+parse_alloc!(c02_download_parse_alloc_tags_n11, 11, 5, "download manifest parse: tag reservation out of proportion to input", |d| { d[5] = 0; d[6] = 0; d[7] = 0; d[8] = 0; }, |d| DownloadManifest::parse(&d));
+parse_alloc!(c02_size_parse_alloc_entries_n15, 15, 5, "size manifest parse: entry reservation out of proportion to input", |d| { d[8] = 0; d[9] = 0; }, |d| SizeManifest::parse(&d));
+parse_alloc!(c02_size_parse_alloc_tags_n15, 15, 5, "size manifest parse: tag reservation out of proportion to input", |d| { d[4] = 0; d[5] = 0; d[6] = 0; d[7] = 0; }, |d| SizeManifest::parse(&d));
 // @end
